@@ -7,7 +7,7 @@ RULE = ("a real rustls client inside the scripted transport: the plaintext SSL r
         "ClientHello coalesced behind it for EVERY k in 0..40 and a sample up to the whole hello, with the first delivery cut "
         "into reads of 1, 2, 3 .. bytes and the later ciphertext in reads of 1 / 7 / 64 / everything; with and without client "
         "certificates; TLS configured or not; shim accepting or rejecting; commands (queries, prepared statements) after the "
-        "handshake, incl. replies of 10^4..10^5 bytes in thousands of small packets (larger than the engine's send buffer); oracle: the handshake completes, every server byte after the greeting is a well-formed TLS record, the user "
+        "handshake, incl. replies of 10^4..10^5 bytes in thousands of small packets (larger than the engine's send buffer), also over a transport with short writes; oracle: the handshake completes, every server byte after the greeting is a well-formed TLS record, the user "
         "name of the encrypted handshake response and the certificate chain reach after_authentication, the decrypted replies "
         "and the callback log equal the model's plaintext run, a TLS request without configuration is refused before "
         "after_authentication; non-trivial = every case; distinct = distinct case text")
@@ -16,13 +16,13 @@ ASSUMPTIONS = ["rustls (handshake, record layer, certificate validation) is an o
 SSL_CAPS = DEFAULT_CAPS | CLIENT_SSL
 
 
-def mk(cid, lim=U24_MAX, tls=1, auth="ok", clientcert=0, user=b"jon", split=0, prechunks=None, chunks="*", cmds=(), scripts=(), bighello=0):
+def mk(cid, lim=U24_MAX, tls=1, auth="ok", clientcert=0, user=b"jon", split=0, prechunks=None, chunks="*", cmds=(), scripts=(), bighello=0, wcap=0):
     pre = frame(ssl_request(SSL_CAPS), 1, lim)
     hs2 = hs41(user, caps=SSL_CAPS)
     plain = frame(hs2, 2, lim)
     for kind, payload in cmds:
         plain += frame(payload, 0, lim)
-    L = ["case %s" % cid, "cfg lim=%d tls=%d auth=%s clientcert=%d" % (lim, tls, auth, clientcert) + (" bighello=%d" % bighello if bighello else ""),
+    L = ["case %s" % cid, "cfg lim=%d tls=%d auth=%s clientcert=%d" % (lim, tls, auth, clientcert) + (" bighello=%d" % bighello if bighello else "") + (" wcap=%d" % wcap if wcap else ""),
          "pre " + hexspec(pre), "plain " + hexspec(plain), "split %d" % split]
     if prechunks:
         L.append("prechunks " + " ".join(str(x) for x in prechunks))
@@ -110,6 +110,10 @@ def run(ctx):
         big = ["q start 1 %s %s fin" % (col(b"a", 253, 0), rows), "q done 1 2"]
         cases.append(mk("c18_%d" % n, cmds=[("query", cmd_query(b"big")), ("ping", cmd_ping()), ("query", cmd_query(b"after"))],
                         scripts=big, chunks=rng.choice(["*", [64]]), clientcert=0))
+        # the same over a transport that accepts only part of each write (short writes)
+        n += 1
+        cases.append(mk("c18_%d" % n, cmds=[("query", cmd_query(b"big")), ("ping", cmd_ping()), ("query", cmd_query(b"after"))],
+                        scripts=big, chunks="*", clientcert=0, wcap=rng.choice([1000, 97, 4096])))
     for lim in (64, 300):
         n += 1
         cases.append(mk("c18_%d" % n, lim=lim, cmds=cmdsets[2], scripts=scripts, chunks=[5]))
